@@ -46,6 +46,8 @@ Inductive rt_event :=
                                                               mid: the peer's id space) from sess *)
 | RtDisconnect (sess reason : Z)                           (* coap_session_disconnected(sess, reason),
                                                               reason not ICMP_ISSUE *)
+| RtIoProcess (tmo : Z)                                    (* coap_io_process(ctx, tmo) with nothing to
+                                                              read: prepare, epoll_wait, prepare *)
 | RtDump.                                                  (* observation of the queue *)
 
 Definition rt_NACK_TOO_MANY_RETRIES : Z := 0.
@@ -62,6 +64,8 @@ Inductive rt_out :=
 | RoNackNoPdu (t sess reason mid : Z)          (* nack handler called without PDU (RST, unknown mid) *)
 | RoAcked (t uid : Z)                          (* ghost: removed from the queue by an ACK *)
 | RoWait (t w hd : Z)                          (* value returned by prepare; hd: head deadline or -1 *)
+| RoEpoll (t et : Z)                          (* timeout handed to epoll_wait (-1 = for ever) *)
+| RoIoRet (t ret : Z)                         (* return value of coap_io_process: ms spent *)
 | RoDump (t : Z) (l : list (Z * sq_node))
 | RoFuel.                                      (* the model's loop bound was hit (never, see proofs) *)
 
@@ -205,6 +209,35 @@ Definition rt_disconnect_old (st : rt_state) (s reason : Z) : rt_state * list rt
    | n :: _ => rt_nack_of (rs_now st) reason n :: map (rt_nack_of (rs_now st) reason) rm
    end).
 
+(* coap_io_process(ctx, timeout_ms) on the epoll build when no datagram arrives:
+   coap_io_prepare_epoll, then epoll_wait for
+     0                      if timeout_ms = COAP_IO_NO_WAIT
+     -1 (for ever)          if nothing is pending and timeout_ms = COAP_IO_WAIT
+     the reported wait, or timeout_ms if nothing is pending or timeout_ms is smaller
+                            (as int: a value that does not fit becomes INT_MAX)
+   then coap_io_do_epoll (no events), which ends with another prepare; returns the ms spent.
+   The clock moves by what epoll_wait was told to sleep (the driver's epoll_wait does that). *)
+Definition rt_IO_WAIT : Z := 0.
+Definition rt_IO_NO_WAIT : Z := 4294967295.
+Definition rt_INT_MAX : Z := 2147483647.
+
+Definition rt_as_int (x : Z) : Z :=          (* unsigned int -> int *)
+  if x <? 2147483648 then x else x - 4294967296.
+
+Definition rt_epoll_timeout (w tmo : Z) : Z :=
+  if tmo =? rt_IO_NO_WAIT then 0
+  else if (w =? 0) && (tmo =? rt_IO_WAIT) then -1
+  else let e := if (w =? 0) || (negb (tmo =? rt_IO_WAIT) && (tmo <? w)) then tmo else w in
+       if rt_as_int e <? 0 then rt_INT_MAX else rt_as_int e.
+
+Definition rt_io_process (st : rt_state) (tmo : Z) : rt_state * list rt_out :=
+  let (st1, o1) := rt_fire_all st in
+  let (w, _) := rt_wait st1 in
+  let et := rt_epoll_timeout w tmo in
+  let st2 := rt_mk_state (rs_now st1 + (if 0 <? et then et else 0)) (rs_base st1) (rs_q st1) (rs_uid st1) in
+  let (st3, o3) := rt_fire_all st2 in
+  (st3, o1 ++ RoEpoll (rs_now st1) et :: o3 ++ [RoIoRet (rs_now st3) (rs_now st3 - rs_now st)]).
+
 Definition rt_step (st : rt_state) (ev : rt_event) : rt_state * list rt_out :=
   match ev with
   | RtAdvance dt => (rt_mk_state (rs_now st + dt) (rs_base st) (rs_q st) (rs_uid st), [])
@@ -214,6 +247,7 @@ Definition rt_step (st : rt_state) (ev : rt_event) : rt_state * list rt_out :=
   | RtRst s m => rt_rst st s m
   | RtNon s _ tok => rt_non st s tok
   | RtDisconnect s reason => rt_disconnect st s reason
+  | RtIoProcess tmo => rt_io_process st tmo
   | RtDump => (st, [RoDump (rs_now st) (sq_abs (rs_base st) (rs_q st))])
   end.
 
